@@ -1,4 +1,6 @@
 import TexSoupProofs.Reader.HypCheck
+import TexSoupProofs.Properties.TokHyp
+import TexSoupProofs.Properties.C19
 /-!
 # C08 – Serialisation conserves the characters of any parseable input
 
@@ -38,6 +40,45 @@ theorem output_exact (skip : List Str) (s : Str) (ts : List Tok) (es : List Expr
     (hy : Hyp (Tables.skipEnvNames ++ skip) ts) (hnb : noBareL es = true)
     (hsp : noSpacerBeforeOpener ts = true) : serL es = flat ts :=
   (conservation skip s ts es ht h hy hnb).strict_exact hsp
+
+/-- Finding F4b excluded, stated on the tokens: whenever an argument list is read right after
+`\begin` / `\end`, its first group is a brace group whose text has no surrounding blanks and
+contains no made-up braces. -/
+def EnvNamesPlain (ts : List Tok) : Prop :=
+  ∀ pre esc n r, ts = pre ++ esc :: n :: r → esc.cat = .Escape → (n.text = sBegin ∨ n.text = sEnd) →
+    ∀ g tol mode a0 as rest, readArgs g (-1) (-1) tol mode r = .ok (a0 :: as, rest) →
+      (∃ b p, a0 = .group .brace b p) ∧ strip a0.string = a0.string ∧ noBareA [a0] = true
+
+theorem memStr_append {x : Str} {a b : List Str} (h : memStr x (a ++ b) = true) :
+    memStr x a = true ∨ memStr x b = true := by
+  induction a with
+  | nil => exact .inr h
+  | cons y a ih =>
+    simp only [List.cons_append, memStr, Bool.or_eq_true] at h ⊢
+    rcases h with h | h
+    · exact .inl (.inl h)
+    · rcases ih h with h | h
+      · exact .inl (.inr h)
+      · exact .inr h
+
+/-- C08 on strings: for an input free of NUL/DEL that parses strictly, with plain names for
+the user's verbatim-like environments, environment names as in `EnvNamesPlain` and no
+made-up arguments in the result: the tokens partition the input exactly and the output is
+their text minus spacers standing directly before an opener. -/
+theorem conservation_string (skip : List Str) (s : Str) (es : List Expr)
+    (hs : ∀ c ∈ s, isIgnored (catOf c) = false) (h : parse false skip s = .ok es)
+    (hskip : ∀ n, memStr n skip = true → PlainEnvName n)
+    (henv : ∀ ts, tokenize s = some ts → EnvNamesPlain ts) (hnb : noBareL es = true) :
+    ∃ ts, tokenize s = some ts ∧ flat ts = s ∧ Del false ts (serL es) ∧ (serL es).Sublist s := by
+  obtain ⟨ts, ht⟩ := tokenize_total s
+  have hy : Hyp (Tables.skipEnvNames ++ skip) ts :=
+    lexical_hyp hs ht (fun n hn => by
+      rcases memStr_append hn with h1 | h1
+      · exact skipEnvNames_memStr_plain n h1
+      · exact hskip n h1) (henv ts ht)
+  have hflat := tokenize_lossless hs ht
+  have hd := conservation skip s ts es ht h hy hnb
+  exact ⟨ts, ht, hflat, hd, hflat ▸ hd.strict_sublist⟩
 
 /-- The same invariant for every reader function, every fuel, every mode (Core A). -/
 theorem reader_invariant (skip0 : List Str) (f : Nat) : ConsAt skip0 f := consAt skip0 f
